@@ -1,6 +1,9 @@
 package props
 
 import (
+	"go/types"
+	"strings"
+
 	"golang.org/x/tools/go/ssa"
 
 	"obsa/eng"
@@ -10,7 +13,7 @@ func init() {
 	register(&Prop{
 		ID: "C06",
 		Explanation: "Structural necessary conditions of 'no dynamic secret or token without a durable lease', on every CFG path: " +
-			"(1) ExpirationManager.Register arms its rollback (deferred closure) before the first durable write; under a non-nil named error the closure routes a RevokeRequest for the fresh secret to the backend, deletes the lease entry and removes the token index, unconditionally (not depending on the entry having been written); success crosses persistEntry and createIndexByToken and tracks the lease; " +
+			"(1) ExpirationManager.Register arms its rollback (deferred closure) before the first durable write; under a non-nil named error the closure routes a RevokeRequest for the fresh secret to the backend — in a context re-scoped by ContextWithNamespace to the namespace Register stored into the lease entry —, deletes the lease entry and removes the token index, unconditionally (not depending on the entry having been written); success crosses persistEntry and createIndexByToken and tracks the lease; " +
 			"(2) in Core.handleRequest / handleLoginRequest the failure edge of Register returns a nil response, the lease ID is attached only on the success edge, once the registerLease flag is true a non-nil response leaves only across the success edge of Register (the flag is cleared only on the KV-mount arms), inline-auth leases are revoked and refused, a login never returns a secret; " +
 			"(3) at every RegisterAuth call site (token creation in handleRequest, login in Core.RegisterAuth, wrapping token in wrapInCubbyhole) the failure edge revokes the fresh token before returning and returns no response; every failing exit of wrapInCubbyhole after the wrapping token exists revokes it; " +
 			"(4) RegisterAuth refuses non-root zero-TTL, batch, empty-token and '..' paths before persisting; " +
@@ -19,7 +22,8 @@ func init() {
 			"(9) createIndexByToken returns nil only after its Put, removeIndexByToken deletes the same salted key in the same token-namespace view, and Register's rollback removes the index under the very variable handed to createIndexByToken; " +
 			"(10) in handleRequest a response with a secret leaves only across Register success, the tested registerLease flag or the sys/leases/renew prefix; " +
 			"(11) a service token created through auth/token/ is returned only across RegisterAuth success; " +
-			"(12) the persist flag handed to expiration.RegisterAuth is the flag the token was created with (login) or constant true (token creation, wrapping).",
+			"(12) the persist flag handed to expiration.RegisterAuth is the flag the token was created with (login) or constant true (token creation, wrapping); " +
+			"(13) every request the expiration manager routes to a backend for a lease (revokeEntry, renewEntry, renewAuthEntry) is routed in a context re-scoped by ContextWithNamespace to leaseEntry.namespace.",
 		NotDecided: "that the backend's revoke handler actually removes the secret; a crash between generation and registration (no code runs); atomicity of the individual storage writes.",
 		Run:        runC06,
 	})
@@ -35,6 +39,8 @@ func runC06(c *eng.Ctx, thorough bool) {
 		c.Unresolved("logical.TokenTypeBatch")
 		return
 	}
+	// Route calls already judged as part of Register's rollback (C06.1); the rest of the family is C06.13
+	routed := map[ssa.Instruction]bool{}
 	// ---------- C06.1 Register
 	if f := c.Fn("vault.(*ExpirationManager).Register"); f != nil {
 		var clo *ssa.Function
@@ -89,6 +95,10 @@ func runC06(c *eng.Ctx, thorough bool) {
 			respIdx := nfParamIndex(f, "resp")
 			for _, e := range nfEffs(routeS) {
 				c.Prov(e.Fn, "request routed by the rollback", e.Call.In, e.Call.Args[2], `^call:logical\.RevokeRequest$`)
+				// ... and it is routed in the lease's own namespace (seed C06-e): the manager's quit context is
+				// root-namespaced, the mount of a child-namespace secret is not in root's mount table
+				routed[e.Call.In] = true
+				c06RouteInLeaseNamespace(c, f, e)
 				// the secret revoked is the Secret of the response Register was called with, however the
 				// rollback reaches that response (captured variable, parameter of the rollback helper)
 				for _, rr := range eng.Calls(e.Fn, `^logical\.RevokeRequest$`) {
@@ -366,4 +376,74 @@ func runC06(c *eng.Ctx, thorough bool) {
 	}
 	c.Floor(nil, "calls of the lease persistence helpers", n, 8)
 	runC06Gaps2(c)
+
+	// ---------- C06.13 the sibling paths: every request the expiration manager routes to a backend on behalf
+	// of a lease (revokeEntry, renewEntry, renewAuthEntry, ...) is routed in that lease's namespace
+	if em := c.P.NamedType("vault.ExpirationManager"); em == nil {
+		c.Unresolved("vault.ExpirationManager")
+	} else {
+		c.Clause("R5", "C06.13")
+		n := 0
+		for _, s := range c.P.FindCalls(mustStatic(c, "routing.(*Router).Route"), func(fn *ssa.Function) bool {
+			recv := eng.TopFunc(fn).Signature.Recv()
+			if recv == nil {
+				return false
+			}
+			pt, ok := recv.Type().(*types.Pointer)
+			return ok && types.Identical(pt.Elem(), em)
+		}) {
+			n++
+			if routed[s.Call] {
+				continue
+			}
+			c06RouteInLeaseNamespace(c, eng.TopFunc(s.Fn), nfEff{Fn: s.Fn, Call: nfCallOf(s.Call)})
+		}
+		c.Floor(nil, "requests routed by the expiration manager", n, 4)
+	}
+}
+
+// c06RouteInLeaseNamespace: the context handed to router.Route is, on every
+// path, namespace.ContextWithNamespace(_, N) with N the lease's own namespace:
+// a read of leaseEntry.namespace, or the very value stored into the namespace
+// field of the lease entry built by the enclosing function (Register: the
+// result of namespace.FromContext(ctx)), reached in place, through a captured
+// variable or through a parameter of a followed helper.
+func c06RouteInLeaseNamespace(c *eng.Ctx, top *ssa.Function, e nfEff) {
+	site := "context of router.Route = the lease's own namespace"
+	nsF := c.P.Field("vault.leaseEntry.namespace")
+	if nsF == nil {
+		c.Unresolved("vault.leaseEntry.namespace")
+		return
+	}
+	if len(e.Call.Args) < 2 {
+		c.Undecided(e.Fn, site, e.Call.In.Pos(), "router.Route without a context operand: the rule cannot be evaluated")
+		return
+	}
+	stored := map[ssa.Value]bool{}
+	for _, w := range c.P.FieldWriters(nsF) {
+		if eng.TopFunc(w.Fn) == top {
+			for _, o := range nfOrigins(w.Store.Val, nil) {
+				stored[o.Val] = true
+			}
+		}
+	}
+	ctxArg := e.Call.Args[1]
+	ok, bad := nfAll(ctxArg, e.Fr, func(o eng.Origin) bool {
+		call, isCall := o.Val.(*ssa.Call)
+		if o.Kind != "call" || !isCall || !strings.HasSuffix(o.Desc, "namespace.ContextWithNamespace") || len(call.Call.Args) != 2 {
+			return false
+		}
+		inNS, _ := nfAll(call.Call.Args[1], e.Fr, func(on eng.Origin) bool {
+			if _, is := nfFieldOf(on, nsF); is {
+				return true
+			}
+			return stored[on.Val]
+		})
+		return inNS
+	})
+	if ok {
+		c.OK(e.Fn, site, e.Call.In.Pos(), eng.ExprDeep(ctxArg))
+	} else {
+		c.Violation(e.Fn, site, e.Call.In.Pos(), "the request is routed with "+eng.ExprDeep(ctxArg)+" ("+bad+"), not with a context re-scoped by namespace.ContextWithNamespace to the lease's namespace (leaseEntry.namespace): for a lease of a mount in a child namespace the path resolves against another namespace's mount table, the backend is not reached and the secret stays live", nil)
+	}
 }
